@@ -253,6 +253,12 @@ func runC04(ctx *core.Ctx, unit int) {
 		if err != nil {
 			panic(err)
 		}
+		{
+			cs := c04Case{Mode: "instance", Template: t.Name, Node: -1, Point: -1, What: "every point of every node"}
+			ctx.CountState(true)
+			ctx.R.Transitions++
+			ctx.Eval(cs, c04Check(cs))
+		}
 		for ni, nd := range allNodes(f) {
 			pts := decPoints(nd)
 			for pi := -1; pi < len(pts); pi++ {
@@ -521,12 +527,32 @@ func c04Instance(cs c04Case, fail func(string, string, ...interface{}) core.Outc
 	if err != nil {
 		panic(err)
 	}
-	n := allNodes(f)[cs.Node]
+	var labels []string
+	if cs.Node == -1 {
+		// every point of every node at once: exactly-once and the token stream, no span rule
+		for ni, nd := range allNodes(f) {
+			for pi, p := range decPoints(nd) {
+				l := fmt.Sprintf("/*N%dP%d:%s*/", ni, pi, p.Name)
+				p.List.Append(l)
+				labels = append(labels, l)
+			}
+		}
+	}
+	nodeIdx := cs.Node
+	if nodeIdx < 0 {
+		nodeIdx = 0
+	}
+	n := allNodes(f)[nodeIdx]
 	tn := typeName(n)
 	an := dec.Ast.Nodes[n]
+	if cs.Node == -1 {
+		tn, an = "all", nil
+	}
 	pts := decPoints(n)
-	var labels []string
 	for pi, p := range pts {
+		if cs.Node == -1 {
+			break
+		}
 		if cs.Point == -1 || cs.Point == pi || cs.Point == pi+1000 {
 			l := fmt.Sprintf("/*P%d:%s*/", pi, p.Name)
 			p.List.Append(l)
